@@ -1726,14 +1726,16 @@ func (a *align) Stops(startingGapsAsIncomplete bool, geneticcode int) (stops []i
 	stops = make([]int, a.NbSequences())
 	codon := make([]uint8, 3)
 	ref := a.seqs[0]
-	phase := 0
-	started := false
 	for s := 1; s < a.NbSequences(); s++ {
 		seq := a.seqs[s]
 		stops[s] = -1
+		// Each sequence is read from its own start
+		phase := 0
+		started := false
 		pos := 0      // position on sequence (without -)
 		codonpos := 0 // nb nt in current codon
-		for i := 0; i < a.Length()-2; i++ {
+		// Columns are read one by one: a codon may end on the last column
+		for i := 0; i < a.Length(); i++ {
 			if ref.sequence[i] == '-' {
 				phase++
 				phase = (phase % 3)
